@@ -164,7 +164,19 @@ class ArpackProvider:
     def configure(self, spec):
         self.spec = dict(spec or {"mode": "fixed"})
         self.mode = self.spec.get("mode", "fixed")
+        self.seen = 0
         self.rng = np.random.RandomState(self.spec.get("seed", 7) & 0x7FFFFFFF)
+
+    def maybe_fail(self):
+        """Cooperative fault point: the j-th ARPACK call of this operation does not converge
+        (legal, rare: scipy raises ArpackNoConvergence)."""
+        self.seen += 1
+        j = self.spec.get("fail_at")
+        if j is not None and self.seen == int(j):
+            from scipy.sparse.linalg import ArpackNoConvergence
+
+            self.stats["fired"]["arpack:no_convergence"] += 1
+            raise ArpackNoConvergence("ARPACK error -1: No convergence %s" % INJECTED_MARK, np.zeros(0), np.zeros((0, 0)))
 
     def v0(self, n, A=None):
         self.calls += 1
@@ -206,6 +218,7 @@ class ArpackProvider:
 
 def _wrap_eigsh(orig, provider):
     def eigsh(A, *args, **kw):
+        provider.maybe_fail()
         if kw.get("v0") is None:
             kw["v0"] = provider.v0(A.shape[0], A)
         return orig(A, *args, **kw)
@@ -219,6 +232,7 @@ def _wrap_svds(orig, provider):
         # svds draws its own start vector from random_state; only when neither is
         # given does the result depend on ambient state (numpy's global generator,
         # which the simulator owns as well). Supply v0 in that case.
+        provider.maybe_fail()
         if kw.get("v0") is None and kw.get("random_state") is None:
             kw["v0"] = provider.v0(min(A.shape), None)
         return orig(A, *args, **kw)
@@ -756,6 +770,6 @@ def is_injected(exc):
     """True if the exception is the injected fault itself (a legitimately failed op)."""
     if isinstance(exc, (InjectedInterrupt, InjectedMemoryError)):
         return True
-    if isinstance(exc, (OSError, ValueError)) and INJECTED_MARK in str(exc):
+    if isinstance(exc, (OSError, ValueError, RuntimeError)) and INJECTED_MARK in str(exc):
         return True
     return False
